@@ -165,7 +165,12 @@ CLAIMS["C09"] = dict(
          "sleep, Mutex, RwLock, Semphore, mpsc, mpmc, SyncFlag, Condvar and join with a cancel at every scheduling point. "
          "Oracle: join() is Ok after the whole program or Err(Cancel), never hangs; a cancel that returned before the final "
          "yield is not ignored; every stack-owned value dropped exactly once; locks neither leaked nor poisoned; nobody else "
-         "panics or sees Canceled (incl. the next coroutine on the same stack).",
+         "panics or sees Canceled (incl. the next coroutine on the same stack). CancelReg.tla models the cancel "
+         "registration over two consecutive blocking calls (sleep or park, then a park on another Blocker) with both kernel "
+         "sides as actors: TLC produces the lost-cancel counter-example for the pinned registration order (F24, repaired) and "
+         "verifies the repaired one; the real code is explored with the coroutine free to run while the kernel side of its "
+         "previous yield is still at work, every explored execution is validated by TLC against that model, and the two "
+         "counter-examples are kept as regress schedules.",
     note="Socket read/accept/connect cancellation belongs to the io properties (C18) and is not part of this check; SC memory; bounded instances.",
     design_ref="DESIGN.md §6 C09",
 )
